@@ -41,7 +41,7 @@ def generate(ctx):
              "reassign_delays": bool(delay) and rng.random() < 0.4, "per_cell": rng.random() < 0.4,
              "lr_a3": rng.choice([0.3, -0.3, 1.5, -1.5]), "lr_b3": rng.choice([0.2, -0.2, 1.2, -1.2]),
              "clear_at": rng.choice([None, None, 3, 5]), "keepshape": rng.random() < 0.6,
-             "inplace": rng.random() < 0.5, "interp_tolerance": rng.choice([0.0, 1e-3])}
+             "inplace": rng.random() < 0.5, "interp_tolerance": rng.choice([0.0, 1e-3]), "update_every": rng.choice([1, 1, 2, 3])}
         if d["reward"] == "tensor":
             d["reduction"] = "sum"   # per-sample signals split the batch by sign: only a sum is reduction-order free
         if rng.random() < 0.4:
@@ -113,6 +113,7 @@ def run_trainer_history(ctx, desc, prop, pre_seq, post_seq, rewards, extra_check
     mask = None
     if conn_kind == "lateral":
         mask = 1 - np.eye(h.conn.weight.shape[0])
+    pend = None
     for t, (pre, post) in enumerate(zip(pre_seq, post_seq)):
         rdesc = {**desc, "T": t + 1}
         if desc.get("reassign_delays") and t and t % 3 == 0:
@@ -126,12 +127,21 @@ def run_trainer_history(ctx, desc, prop, pre_seq, post_seq, rewards, extra_check
             ctx.count("episode_clears")
         delays = None if h.conn.delayedby is None else h.conn.delay.detach().clone()
         reward = rewards[t] if rewards is not None else None
+        # updates may accumulate over several trainer calls (inspected in between) before the connection applies them: what is
+        # pending is then the sum of the per-step contributions since the last application
+        ue = desc.get("update_every", 1) if not desc.get("clear_at") else 1
+        applying = (t + 1) % ue == 0
         try:
-            pos, neg, dparam = h.step_apply(pre, post, reward, desc.get("scale", 1.0))
+            pos, neg, dparam = h.step_apply(pre, post, reward, desc.get("scale", 1.0), apply=applying)
         except Exception as e:  # noqa: BLE001
             ctx.violation(ctx.exc_signature(e, f"step.{name}.{conn_kind}.{tagd}"), f"{type(e).__name__}: {str(e)[:200]}", rdesc)
             return False
         epos, eneg = orc.step(pre, post, delays, reward, desc.get("scale", 1.0))
+        if ue > 1:
+            ctx.count("steps_with_accumulated_pending_updates")
+            if pend is not None:
+                epos, eneg = pend[0] + epos, pend[1] + eneg
+            pend = None if applying else (epos, eneg)
         ctx.case(f"{prop}/{name}/{kind}/{tagd}/signs{desc['signs']}/{hyper['trace_mode']}/{red}/B{desc.get('B', 1)}/pc{int(bool(desc.get('per_cell')))}/"
                  f"{desc.get('reward', '-')}/{'pairs' if (epos.any() or eneg.any()) else 'nopairs'}")
         ctx.count("trainer_steps_checked")
@@ -152,7 +162,7 @@ def run_trainer_history(ctx, desc, prop, pre_seq, post_seq, rewards, extra_check
             ctx.violation(f"{name}.parts_ne_pair_sum.{conn_kind}.{tagd}",
                           f"step {t}: the potentiating / depressing split differs from the rule's split", rdesc)
             return False
-        e_applied = enet if mask is None else enet * mask
+        e_applied = (enet if mask is None else enet * mask) if applying else np.zeros_like(enet)
         if not np.allclose(_np(dparam), e_applied, rtol=rt, atol=at):
             ctx.violation(f"{name}.applied_change_ne_pair_sum.{conn_kind}.{tagd}",
                           f"step {t}: the parameter changed by something other than potentiation - depression", rdesc,
